@@ -59,7 +59,7 @@ func readAgo(dir, name string) ([]int, error) {
 func cliProp() engine.AnyProp {
 	return engine.Prop[CLISync]{ID: "C12", Subject: "CLI/indicator-sync",
 		Gen: func(t *rapid.T) CLISync {
-			c := CLISync{Days: rapid.SampledFrom([]int{10, 30}).Draw(t, "days"), Workers: rapid.IntRange(1, 4).Draw(t, "workers"), Explicit: rapid.Bool().Draw(t, "explicit")}
+			c := CLISync{Days: rapid.SampledFrom([]int{10, 30, 30, 120000, 1000000}).Draw(t, "days"), Workers: rapid.IntRange(1, 4).Draw(t, "workers"), Explicit: rapid.Bool().Draw(t, "explicit")}
 			names := rapid.Permutation(assetNames).Draw(t, "names")
 			for i, k := 0, rapid.IntRange(1, 4).Draw(t, "assets"); i < k; i++ {
 				a := CLIAsset{Name: names[i], Named: rapid.IntRange(0, 3).Draw(t, "named") > 0}
@@ -67,7 +67,8 @@ func cliProp() engine.AnyProp {
 					ago := 60
 					for ago > 1 {
 						ago -= rapid.IntRange(1, 6).Draw(t, "gap")
-						// keep clear of the default start date (now - Days, an intraday instant)
+						// keep clear of the default start date (now - Days, an intraday instant; a
+						// "take everything" look-back of centuries includes every snapshot)
 						if ago < 1 || (ago >= c.Days-1 && ago <= c.Days+1) {
 							continue
 						}
